@@ -182,6 +182,25 @@ def atomic_assign(prog, rep):
         vals = f.params[0]
         n += 1
         body = [s for s in f.node.body if not (isinstance(s, ast.Expr) and isinstance(s.value, ast.Constant))]
+        # the assigned iterable is walked ONCE (or materialised first): a second pass over a generator / map / iterator finds it
+        # exhausted, so a "check first, install afterwards" setter installs nothing and checks nothing
+        ITER_FUNCS = ("list", "tuple", "sorted", "set", "frozenset", "all", "any", "sum", "min", "max", "enumerate", "zip", "iter", "map", "filter", "reversed", "len")
+        passes = []
+        for x in walk_no_nested(f.node):
+            if isinstance(x, ast.For) and isinstance(x.iter, ast.Name) and x.iter.id == vals:
+                passes.append(x)
+            elif isinstance(x, (ast.ListComp, ast.GeneratorExp, ast.SetComp, ast.DictComp)) and any(isinstance(g.iter, ast.Name) and g.iter.id == vals for g in x.generators):
+                passes.append(x)
+            elif isinstance(x, ast.Call) and norm(x.func) in ITER_FUNCS and any(isinstance(a, ast.Name) and a.id == vals for a in x.args):
+                passes.append(x)
+        materialised = any(isinstance(x, ast.Assign) and len(x.targets) == 1 and isinstance(x.targets[0], ast.Name) and x.targets[0].id == vals and isinstance(x.value, ast.Call)
+                           and norm(x.value.func) in ("list", "tuple") for x in walk_no_nested(f.node))
+        if len(passes) > 1 and not materialised:
+            rep.fail("atomic-assign", mod, fq, passes[1], f"`{vals}` is iterated {len(passes)} times (`{norm(head(passes[0]))[:50]}`, then `{norm(head(passes[1]))[:50]}`) without being materialised: "
+                     "for a one-shot iterable the later pass sees nothing, so elements are neither checked nor installed and the previous tracks are lost without an error",
+                     construct=f"{fq} iterates {vals} twice")
+        else:
+            rep.ok("atomic-assign", f"{fq}: `{vals}` is walked once")
         tr = next((s for s in body if isinstance(s, ast.Try)), None)
         if tr is None:
             rep.fail("atomic-assign", mod, fq, f.node, "list assignment has no try/except that can restore the previous tracks", construct=f"{fq} try")
